@@ -264,4 +264,464 @@ theorem tokens_joinSp (ts : List Line) (h : ∀ t ∈ ts, Word t) : tokens (join
       show tokens (t ++ ' ' :: joinSp (t2 :: ts2)) = _
       rw [tokens_word t ht.1 ht.2 _ (Or.inr ⟨' ', _, rfl, Or.inl rfl⟩), tokens_blank _ _ (Or.inl rfl), ih']
 
+/-! ### comments -/
+
+theorem cutComment_hash (l : Line) : cutComment ('#' :: l) = [] := by
+  simp [cutComment]
+
+theorem cutComment_of_no_hash (l : Line) (h : ∀ c ∈ l, c ≠ '#') : cutComment l = l := by
+  unfold cutComment
+  induction l with
+  | nil => rfl
+  | cons c l ih =>
+    have hc : c ≠ '#' := h c (by simp)
+    rw [List.takeWhile_cons]
+    simp only [bne_iff_ne, ne_eq, hc, not_false_eq_true, if_true]
+    rw [ih (fun c' hc' => h c' (by simp [hc']))]
+
+theorem TokChar.not_blank {c : Char} (h : TokChar c) : ¬ Blank c := by
+  rintro (e | e)
+  · exact h.1 e
+  · exact h.2.1 e
+
+/-- a written token: non-empty, neither blank, tab nor `#` inside -/
+def WTok (t : Line) : Prop := t ≠ [] ∧ ∀ c ∈ t, TokChar c
+
+theorem WTok.word {t : Line} (h : WTok t) : Word t := ⟨h.1, fun c hc => (h.2 c hc).not_blank⟩
+
+theorem fmt_wtok (fmt : Fmt) (v : Int) : WTok (fmt.apply v) := ⟨fmt_ne_nil fmt v, fmt_tokChar fmt v⟩
+
+theorem joinSp_no_hash (ts : List Line) (h : ∀ t ∈ ts, ∀ c ∈ t, c ≠ '#') : ∀ c ∈ joinSp ts, c ≠ '#' := by
+  induction ts with
+  | nil => intro c hc; simp [joinSp] at hc
+  | cons t ts ih =>
+    cases ts with
+    | nil => exact h t (by simp)
+    | cons t2 ts2 =>
+      intro c hc
+      change c ∈ t ++ ' ' :: joinSp (t2 :: ts2) at hc
+      simp only [List.mem_append, List.mem_cons] at hc
+      rcases hc with hc | rfl | hc
+      · exact h t (by simp) c hc
+      · decide
+      · exact ih (fun t' ht' => h t' (by simp [ht'])) c hc
+
+/-- a written data line reads back as its tokens -/
+theorem tokens_cut_joinSp (ts : List Line) (h : ∀ t ∈ ts, WTok t) :
+    tokens (cutComment (joinSp ts)) = ts := by
+  rw [cutComment_of_no_hash _ (joinSp_no_hash ts (fun t ht c hc => ((h t ht).2 c hc).2.2))]
+  exact tokens_joinSp ts (fun t ht => (h t ht).word)
+
+theorem tokens_cut_header (l : Line) : tokens (cutComment ('#' :: ' ' :: l)) = [] := by
+  rw [cutComment_hash]; rfl
+
+/-! ### `mapM` in `Option` -/
+
+theorem mapM_map_some {α β : Type} (f : β → Option α) (g : α → β) (l : List α)
+    (h : ∀ x ∈ l, f (g x) = some x) : (l.map g).mapM f = some l := by
+  induction l with
+  | nil => rfl
+  | cons a l ih =>
+    rw [List.map_cons, List.mapM_cons, h a (by simp), ih (fun x hx => h x (by simp [hx]))]
+    rfl
+
+theorem row_parse (fmt : Fmt) (row : List Int) : (row.map fmt.apply).mapM parseTok = some row :=
+  mapM_map_some parseTok fmt.apply row (fun v _ => parseTok_fmt fmt v)
+
+/-! ### read ∘ write -/
+
+theorem readTable_append_header (H : List Line) (D : List Line) :
+    readTable (H.map (fun l => '#' :: ' ' :: l) ++ D) = readTable D := by
+  unfold readTable
+  rw [List.map_append, List.filter_append]
+  have : ((H.map (fun l => '#' :: ' ' :: l)).map (fun l => tokens (cutComment l))).filter (fun ts => !ts.isEmpty) = [] := by
+    rw [List.filter_eq_nil_iff]
+    intro ts hts
+    simp only [List.mem_map] at hts
+    obtain ⟨l, ⟨l0, _, rfl⟩, rfl⟩ := hts
+    rw [tokens_cut_header]; simp
+  rw [this, List.nil_append]
+
+theorem readTable_data (fmt : Fmt) (tbl : List (List Int)) (h : ∀ r ∈ tbl, r ≠ []) :
+    readTable (tbl.map (fun row => joinSp (row.map fmt.apply))) = some tbl := by
+  unfold readTable
+  have h1 : (tbl.map (fun row => joinSp (row.map fmt.apply))).map (fun l => tokens (cutComment l))
+      = tbl.map (fun row => row.map fmt.apply) := by
+    rw [List.map_map]
+    apply List.map_congr_left
+    intro row _
+    exact tokens_cut_joinSp _ (by
+      intro t ht
+      simp only [List.mem_map] at ht
+      obtain ⟨v, _, rfl⟩ := ht
+      exact fmt_wtok fmt v)
+  rw [h1]
+  have h2 : (tbl.map (fun row => row.map fmt.apply)).filter (fun ts => !ts.isEmpty) = tbl.map (fun row => row.map fmt.apply) := by
+    rw [List.filter_eq_self]
+    intro ts hts
+    simp only [List.mem_map] at hts
+    obtain ⟨row, hrow, rfl⟩ := hts
+    have := h row hrow
+    cases row with
+    | nil => exact absurd rfl this
+    | cons => rfl
+  rw [h2]
+  exact mapM_map_some _ _ tbl (fun row _ => row_parse fmt row)
+
+theorem readTable_writeTable (hdr : List Char) (fmt : Fmt) (tbl : List (List Int)) (h : ∀ r ∈ tbl, r ≠ []) :
+    readTable (writeTable hdr fmt tbl) = some tbl := by
+  unfold writeTable
+  rw [readTable_append_header, readTable_data fmt tbl h]
+
+/-! ### `usecols` -/
+
+theorem mem_insertAsc (x y : Nat) (l : List Nat) : y ∈ insertAsc x l ↔ y = x ∨ y ∈ l := by
+  induction l with
+  | nil => simp [insertAsc]
+  | cons z zs ih =>
+    unfold insertAsc
+    split
+    · simp
+    · simp only [List.mem_cons, ih]
+      constructor
+      · rintro (h | h | h) <;> simp [h]
+      · rintro (h | h | h) <;> simp [h]
+
+theorem mem_sortAsc (y : Nat) (l : List Nat) : y ∈ sortAsc l ↔ y ∈ l := by
+  unfold sortAsc
+  induction l with
+  | nil => simp
+  | cons x xs ih => simp only [List.foldr_cons, mem_insertAsc, ih, List.mem_cons]
+
+theorem insertAsc_perm (x : Nat) (l : List Nat) : (insertAsc x l).Perm (x :: l) := by
+  induction l with
+  | nil => exact List.Perm.refl _
+  | cons z zs ih =>
+    unfold insertAsc
+    split
+    · exact List.Perm.refl _
+    · exact (List.Perm.cons z ih).trans (List.Perm.swap x z zs)
+
+theorem sortAsc_perm (l : List Nat) : (sortAsc l).Perm l := by
+  unfold sortAsc
+  induction l with
+  | nil => exact List.Perm.refl _
+  | cons x xs ih => exact (insertAsc_perm x _).trans (List.Perm.cons x ih)
+
+theorem insertAsc_sorted (x : Nat) (l : List Nat) (h : l.Pairwise (· ≤ ·)) : (insertAsc x l).Pairwise (· ≤ ·) := by
+  induction l with
+  | nil => simp [insertAsc]
+  | cons z zs ih =>
+    unfold insertAsc
+    rw [List.pairwise_cons] at h
+    split
+    · rename_i hxz
+      refine List.pairwise_cons.mpr ⟨?_, List.pairwise_cons.mpr h⟩
+      intro a ha
+      simp only [List.mem_cons] at ha
+      rcases ha with rfl | ha
+      · exact hxz
+      · exact Nat.le_trans hxz (h.1 a ha)
+    · rename_i hxz
+      refine List.pairwise_cons.mpr ⟨?_, ih h.2⟩
+      intro a ha
+      rw [mem_insertAsc] at ha
+      rcases ha with rfl | ha
+      · omega
+      · exact h.1 a ha
+
+theorem sortAsc_sorted (l : List Nat) : (sortAsc l).Pairwise (· ≤ ·) := by
+  unfold sortAsc
+  induction l with
+  | nil => simp
+  | cons x xs ih => exact insertAsc_sorted x _ ih
+
+/-- `idxOf` through a map that is injective on the list -/
+theorem idxOf_map_inj {α β : Type} [DecidableEq α] [DecidableEq β] (g : α → β) (l : List α) (x : α)
+    (hx : x ∈ l) (hinj : ∀ a ∈ l, g a = g x → a = x) : (l.map g).idxOf (g x) = l.idxOf x := by
+  induction l with
+  | nil => simp at hx
+  | cons a l ih =>
+    rw [List.map_cons, List.idxOf_cons, List.idxOf_cons]
+    by_cases hax : a = x
+    · subst hax; simp
+    · have hne : g a ≠ g x := fun e => hax (hinj a (by simp) e)
+      have hx' : x ∈ l := by
+        simp only [List.mem_cons] at hx
+        rcases hx with rfl | hx
+        · exact absurd rfl hax
+        · exact hx
+      have h1 : (g a == g x) = false := by simpa using hne
+      have h2 : (a == x) = false := by simpa using hax
+      rw [h1, h2, cond_false, cond_false, ih hx' (fun b hb => hinj b (by simp [hb]))]
+
+theorem idxOf_getElem_nodup {α : Type} [DecidableEq α] (l : List α) (hn : l.Nodup) (m : Nat) (hm : m < l.length) :
+    l.idxOf l[m] = m := by
+  induction l generalizing m with
+  | nil => simp at hm
+  | cons a l ih =>
+    rw [List.nodup_cons] at hn
+    cases m with
+    | zero => simp
+    | succ m =>
+      simp only [List.getElem_cons_succ]
+      rw [List.idxOf_cons]
+      have : a ≠ l[m]'(by simpa using hm) := fun e => hn.1 (e ▸ List.getElem_mem _)
+      have h1 : (a == l[m]'(by simpa using hm)) = false := by simpa using this
+      rw [h1, cond_false, ih hn.2]
+
+/-- the code path of `usecols` on one row -/
+theorem selectRow (cols : List Nat) (hn : cols.Nodup) (row : List Int) :
+    (List.range cols.length).map (fun m =>
+      ((sortAsc cols).map (fun c => row.getD c 0)).getD (((sortAsc cols).map (fun c => cols.idxOf c)).idxOf m) 0)
+    = cols.map (fun c => row.getD c 0) := by
+  apply List.ext_getElem
+  · simp
+  · intro m h1 h2
+    simp only [List.length_map, List.length_range] at h1
+    simp only [List.getElem_map, List.getElem_range]
+    have hmem : cols[m] ∈ sortAsc cols := (mem_sortAsc _ _).mpr (List.getElem_mem _)
+    have hm : cols.idxOf cols[m] = m := idxOf_getElem_nodup cols hn m h1
+    have hidx : ((sortAsc cols).map (fun c => cols.idxOf c)).idxOf m = (sortAsc cols).idxOf cols[m] := by
+      conv => lhs; rw [← hm]
+      apply idxOf_map_inj (fun c => cols.idxOf c) (sortAsc cols) cols[m] hmem
+      intro a ha e
+      have ha' : a ∈ cols := (mem_sortAsc _ _).mp ha
+      have h3 : cols.idxOf a < cols.length := List.idxOf_lt_length_iff.mpr ha'
+      have := List.getElem_idxOf h3
+      rw [← this]
+      simp only [e, hm]
+    rw [hidx]
+    have hlt : (sortAsc cols).idxOf cols[m] < (sortAsc cols).length := List.idxOf_lt_length_iff.mpr hmem
+    rw [List.getD_eq_getElem?_getD, List.getElem?_eq_getElem (by simpa using hlt)]
+    simp only [List.getElem_map, Option.getD_some, List.getElem_idxOf hlt]
+
+theorem selectColsCode_eq (cols : List Nat) (hn : cols.Nodup) (tbl : List (List Int)) :
+    selectColsCode cols tbl = selectCols cols tbl := by
+  unfold selectColsCode selectCols
+  apply List.map_congr_left
+  intro row _
+  exact selectRow cols hn row
+
+/-! ### limits -/
+
+theorem splitLimits_go_spec {α : Type} (limits : List Nat) (rows : List α) (h : limits.sum = rows.length) :
+    (splitLimits.go limits rows).map List.length = limits ∧ (splitLimits.go limits rows).flatten = rows := by
+  induction limits generalizing rows with
+  | nil =>
+    simp only [List.sum_nil] at h
+    have : rows = [] := List.eq_nil_of_length_eq_zero h.symm
+    subst this
+    simp [splitLimits.go]
+  | cons n ns ih =>
+    simp only [List.sum_cons] at h
+    have h' : ns.sum = (rows.drop n).length := by simp; omega
+    have hn : min n rows.length = n := by omega
+    obtain ⟨ih1, ih2⟩ := ih (rows.drop n) h'
+    simp only [splitLimits.go, List.map_cons, List.flatten_cons, ih1, ih2, List.take_append_drop, List.length_take, hn]
+    trivial
+
+theorem splitLimits_some {α : Type} (limits : List Nat) (rows : List α) (pieces : List (List α))
+    (h : splitLimits limits rows = some pieces) :
+    limits.sum = rows.length ∧ pieces.map List.length = limits ∧ pieces.flatten = rows := by
+  unfold splitLimits at h
+  split at h
+  · simp at h
+  · rename_i hs
+    simp only [Option.some.injEq] at h
+    subst h
+    have hs' : limits.sum = rows.length := by simpa using hs
+    exact ⟨hs', splitLimits_go_spec limits rows hs'⟩
+
+theorem splitLimits_none {α : Type} (limits : List Nat) (rows : List α) :
+    splitLimits limits rows = none ↔ limits.sum ≠ rows.length := by
+  unfold splitLimits
+  split <;> simp_all
+
+theorem splitLimits_single {α : Type} (rows : List α) : splitLimits [rows.length] rows = some [rows] := by
+  simp [splitLimits, splitLimits.go]
+
+/-! ### chunking -/
+
+theorem chunks_eq_go {α : Type} (l : List α) (c : Nat) (hc : 1 ≤ c) : chunks l c = chunks.go c l.length l := by
+  unfold chunks
+  rw [if_neg (by omega)]
+
+theorem chunks_go_nil {α : Type} (c fuel : Nat) : chunks.go c fuel ([] : List α) = [] := by
+  cases fuel <;> rfl
+
+theorem chunks_go_cons {α : Type} (c fuel : Nat) (a : α) (l : List α) :
+    chunks.go c (fuel + 1) (a :: l) = (a :: l).take c :: chunks.go c fuel ((a :: l).drop c) := rfl
+
+theorem chunks_go_spec {α : Type} (c : Nat) (hc : 1 ≤ c) (fuel : Nat) (l : List α) (hf : l.length ≤ fuel) :
+    (chunks.go c fuel l).flatten = l ∧
+    (∀ ch ∈ chunks.go c fuel l, ch ≠ [] ∧ ch.length ≤ c) ∧
+    (∀ ch ∈ (chunks.go c fuel l).dropLast, ch.length = c) ∧
+    (chunks.go c fuel l).length = (l.length + c - 1) / c := by
+  induction fuel generalizing l with
+  | zero =>
+    have : l = [] := List.eq_nil_of_length_eq_zero (by omega)
+    subst this
+    rw [chunks_go_nil]
+    refine ⟨rfl, by simp, by simp, ?_⟩
+    simp only [List.length_nil]
+    rw [Nat.div_eq_of_lt (by omega)]
+  | succ fuel ih =>
+    cases l with
+    | nil =>
+      rw [chunks_go_nil]
+      refine ⟨rfl, by simp, by simp, ?_⟩
+      simp only [List.length_nil]
+      rw [Nat.div_eq_of_lt (by omega)]
+    | cons a l =>
+      rw [chunks_go_cons]
+      have hlen : ((a :: l).drop c).length = (a :: l).length - c := List.length_drop
+      have htl : ((a :: l).take c).length = min c (a :: l).length := List.length_take
+      have hpos : 1 ≤ (a :: l).length := by simp
+      generalize (a :: l).length = n at hlen htl hpos hf ⊢
+      have hf' : ((a :: l).drop c).length ≤ fuel := by
+        rw [hlen]; omega
+      obtain ⟨ih1, ih2, ih3, ih4⟩ := ih ((a :: l).drop c) hf'
+      refine ⟨?_, ?_, ?_, ?_⟩
+      · rw [List.flatten_cons, ih1, List.take_append_drop]
+      · intro ch hch
+        simp only [List.mem_cons] at hch
+        rcases hch with rfl | hch
+        · refine ⟨?_, by rw [htl]; omega⟩
+          intro e
+          have := congrArg List.length e
+          rw [htl] at this
+          simp only [List.length_nil] at this
+          omega
+        · exact ih2 ch hch
+      · intro ch hch
+        cases hgo : chunks.go c fuel ((a :: l).drop c) with
+        | nil => rw [hgo] at hch; simp at hch
+        | cons b rest =>
+          rw [hgo, List.dropLast_cons_cons] at hch
+          simp only [List.mem_cons] at hch
+          rcases hch with rfl | hch
+          · have h4 := ih4
+            rw [hgo, hlen] at h4
+            simp only [List.length_cons] at h4
+            have : n - c ≠ 0 := by
+              intro e
+              rw [e, Nat.zero_add, Nat.div_eq_of_lt (by omega)] at h4
+              omega
+            rw [htl]; omega
+          · rw [hgo] at ih3; exact ih3 ch hch
+      · rw [List.length_cons, ih4, hlen]
+        by_cases hle : c ≤ n
+        · have : n + c - 1 = (n - c + c - 1) + c := by omega
+          rw [this, Nat.add_div_right _ (by omega)]
+        · have h0 : n - c = 0 := by omega
+          rw [h0, Nat.zero_add, Nat.div_eq_of_lt (by omega)]
+          have h1 : (n + c - 1) / c = 1 := by
+            have : n + c - 1 = (n - 1) + c := by omega
+            rw [this, Nat.add_div_right _ (by omega), Nat.div_eq_of_lt (by omega)]
+          rw [h1]
+
+theorem chunks_spec {α : Type} (l : List α) (c : Nat) (hc : 1 ≤ c) :
+    (chunks l c).flatten = l ∧
+    (∀ ch ∈ chunks l c, ch ≠ [] ∧ ch.length ≤ c) ∧
+    (∀ ch ∈ (chunks l c).dropLast, ch.length = c) ∧
+    (chunks l c).length = (l.length + c - 1) / c := by
+  rw [chunks_eq_go l c hc]
+  exact chunks_go_spec c hc l.length l (Nat.le_refl _)
+
+/-! ### command-line coring -/
+
+theorem cliCoring_eq (core : List Int → Option (List Int)) (lines : List Line) (limits : Option (List Nat))
+    (hdr : List Char) :
+    cliCoring core lines limits hdr =
+      (readTable lines).bind fun tbl =>
+        (splitLimits (limits.getD [(tbl.map (fun r => r.getD 0 0)).length]) (tbl.map (fun r => r.getD 0 0))).bind fun pieces =>
+          (pieces.mapM core).bind fun cored => some (writeTable hdr .f0 (cored.flatten.map (fun v => [v]))) := rfl
+
+theorem cliCoring_some_iff (core : List Int → Option (List Int)) (lines : List Line) (limits : Option (List Nat))
+    (hdr : List Char) (out : List Line) :
+    cliCoring core lines limits hdr = some out ↔
+      ∃ tbl pieces cored, readTable lines = some tbl ∧
+        splitLimits (limits.getD [(tbl.map (fun r => r.getD 0 0)).length]) (tbl.map (fun r => r.getD 0 0)) = some pieces ∧
+        pieces.mapM core = some cored ∧
+        out = writeTable hdr .f0 (cored.flatten.map (fun v => [v])) := by
+  rw [cliCoring_eq]
+  simp only [Option.bind_eq_some_iff, Option.some.injEq]
+  constructor
+  · rintro ⟨tbl, h1, pieces, h2, cored, h3, rfl⟩
+    exact ⟨tbl, pieces, cored, h1, h2, h3, rfl⟩
+  · rintro ⟨tbl, pieces, cored, h1, h2, h3, rfl⟩
+    exact ⟨tbl, h1, pieces, h2, cored, h3, rfl⟩
+
+theorem mapM_lengths (core : List Int → Option (List Int))
+    (hcore : ∀ t r, core t = some r → r.length = t.length) (pieces cored : List (List Int))
+    (h : pieces.mapM core = some cored) : cored.map List.length = pieces.map List.length := by
+  induction pieces generalizing cored with
+  | nil =>
+    simp at h; subst h; rfl
+  | cons p ps ih =>
+    rw [List.mapM_cons] at h
+    cases h1 : core p with
+    | none => simp [h1] at h
+    | some r =>
+      cases h2 : ps.mapM core with
+      | none => simp [h1, h2] at h
+      | some rs =>
+        simp [h1, h2] at h
+        subst h
+        simp only [List.map_cons, hcore p r h1, ih rs h2]
+
+theorem firstCol_single (p : List Int) : (p.map (fun v => [v])).map (fun r => r.getD 0 0) = p := by
+  rw [List.map_map]
+  conv => rhs; rw [← List.map_id p]
+  apply List.map_congr_left
+  intro v _; rfl
+
+theorem readTable_write_single (hdr : List Char) (fmt : Fmt) (col : List Int) :
+    readTable (writeTable hdr fmt (col.map (fun v => [v]))) = some (col.map (fun v => [v])) :=
+  readTable_writeTable hdr fmt _ (by
+    intro r hr
+    simp only [List.mem_map] at hr
+    obtain ⟨v, _, rfl⟩ := hr
+    simp)
+
+/-- the command on a file that holds one piece and has no limits file -/
+theorem cliCoring_single (core : List Int → Option (List Int)) (lines : List Line) (p : List Int) (hdr : List Char)
+    (h : readTable lines = some (p.map (fun v => [v]))) :
+    cliCoring core lines none hdr = (core p).map (fun r => writeTable hdr .f0 (r.map (fun v => [v]))) := by
+  rw [cliCoring_eq, h]
+  simp only [Option.bind_some, Option.getD_none, firstCol_single, splitLimits_single]
+  cases hc : core p with
+  | none => simp [hc]
+  | some r => simp [hc]
+
+/-- the command with a limits file, given what the reader and the splitter return -/
+theorem cliCoring_limits (core : List Int → Option (List Int)) (lines : List Line) (ls : List Nat) (hdr : List Char)
+    (tbl : List (List Int)) (pieces : List (List Int)) (h1 : readTable lines = some tbl)
+    (h2 : splitLimits ls (tbl.map (fun r => r.getD 0 0)) = some pieces) :
+    cliCoring core lines (some ls) hdr =
+      (pieces.mapM core).map (fun cored => writeTable hdr .f0 (cored.flatten.map (fun v => [v]))) := by
+  rw [cliCoring_eq, h1]
+  simp only [Option.bind_some, Option.getD_some, h2]
+  cases pieces.mapM core <;> rfl
+
+theorem mapM_option_map {α β γ : Type} (f : α → Option β) (g : β → γ) (l : List α) :
+    l.mapM (fun a => (f a).map g) = (l.mapM f).map (List.map g) := by
+  induction l with
+  | nil => rfl
+  | cons a l ih =>
+    rw [List.mapM_cons, List.mapM_cons, ih]
+    cases f a with
+    | none => rfl
+    | some b => cases l.mapM f <;> rfl
+
+theorem mapM_read_written (hdr : List Char) (cored : List (List Int)) :
+    (cored.map (fun r => writeTable hdr .f0 (r.map (fun v => [v])))).mapM readTable
+      = some (cored.map (fun r => r.map (fun v => [v]))) := by
+  induction cored with
+  | nil => rfl
+  | cons r rs ih =>
+    rw [List.map_cons, List.mapM_cons, readTable_write_single, ih]
+    rfl
+
 end MsmVerif.TextIO
